@@ -22,6 +22,15 @@ def gen_cases(rng, n, max_depth):
     while len(out) < n:
         r = H.gen_hierarchy(rng, max_depth=rng.randint(1, max_depth), p_rep=0.4, p_through=0.2, root_sized=True)
         if H.count_nodes(r) <= 9:
+            if rng.random() < 0.3:
+                # a hand-written sum of a sum (sympy keeps it as ONE object with two limits, the inner one first), the inner
+                # range mentioning the outer iterator: a resource of some leaf, over one of its parameters if it has any
+                leaves = [n for n, _ in H._nodes(r) if not n["children"]]
+                lf = rng.choice(leaves)
+                top = E.sym(rng.choice(lf["input_params"])) if lf["input_params"] else E.num(3)
+                kind = rng.choice(["sum", "sum", "prod"])
+                inner = ["b", kind, "j", E.op("add", E.op("mul", E.num(2), E.sym("j")), E.sym("i")), E.num(0), E.sym("i")]
+                lf["resources"].append({"name": "zs", "type": "other", "value": ["b", kind, "i", inner, E.num(1), top]})
             out.append({"routine": r})
     return out
 
